@@ -91,7 +91,7 @@ class Builder:
         os.makedirs(d)
         try:
             p = os.path.join(d, "alone.cc")
-            with open(p, "w") as f:
+            with open(p, "w", encoding="utf-8") as f:
                 f.write(text)
             inc = os.path.join(_tree.REPO, _tree.CODE_REL)
             try:
@@ -122,13 +122,13 @@ class Builder:
             objs = []
             for name in sorted(sources):  # headers first: they only have to be there
                 if not name.endswith(".cc"):
-                    with open(os.path.join(src, name), "w") as f:
+                    with open(os.path.join(src, name), "w", encoding="utf-8") as f:
                         f.write(sources[name])
             for name in sorted(sources):
                 if not name.endswith(".cc"):
                     continue
                 p = os.path.join(src, name)
-                with open(p, "w") as f:
+                with open(p, "w", encoding="utf-8") as f:
                     f.write(sources[name])
                 o = p[:-3] + ".o"
                 # No warning option is enabled or promoted (C20 is about acceptance, not warnings),
